@@ -44,8 +44,9 @@ func (sx *server) getDuid(hwaddr net.HardwareAddr, cid []byte) d.Duid {
 		// due to a static assignment, so we use the internal version.
 		return sduid
 	}
-	if len(cid) < 4 {
-		// Client sent us nonsense. Our own internal duid is better than this.
+	if len(cid) < 4 || bytes.HasPrefix(cid, internalDuidPrefix) {
+		// Client sent us nonsense (or tried to use our internal namespace).
+		// Our own internal duid is better than this.
 		return sduid
 	}
 	// No client override and sane duid -> use it.
@@ -56,5 +57,8 @@ func (sx *server) getDuid(hwaddr net.HardwareAddr, cid []byte) d.Duid {
 func duidFromHwAddr(hw net.HardwareAddr) d.Duid {
 	// 0x0003 = DUID-LL
 	// 0x0000 = Reserved/invalid hw type -> this is internal.
-	return d.Duid(append([]byte{0x00, 0x03, 0x00, 0x00}, hw...))
+	return d.Duid(append(append([]byte{}, internalDuidPrefix...), hw...))
 }
+
+// internalDuidPrefix marks duids constructed by duidFromHwAddr.
+var internalDuidPrefix = []byte{0x00, 0x03, 0x00, 0x00}
